@@ -9,8 +9,9 @@ Lemma LInv_step_CDecode x x' :
 Proof.
   intros A [LF LL] Hl H Hl'. simpl in H.
   destruct x as [cs ss sg wc ws sd sq cd cq ud lo tn]; simpl in *; subst lo.
-  destruct cd as [|f r]; try discriminate. destruct f as [s|s m|s|id].
-  - (* PAck *) destruct (lookup s cs) as [c|] eqn:CV; [destruct (c_phase c) eqn:P|]; inversion H; subst; clear H.
+  destruct cd as [|f r]; try discriminate. destruct f as [s|s m|s|id|s].
+  - (* PAck *) destruct (lookup s cs) as [c|] eqn:CV;
+      [pose proof (a_routed _ A _ _ CV) as UR; destruct (c_phase c) eqn:P; rewrite ?UR in H|]; inversion H; subst; clear H.
     + client_step LF LL s. destruct (lookup s ss) eqn:SV; live_of LL CV; constructor; simpl; intros; norm_all; fin.
     + other_step LF LL s; [congruence|]. assert (c0 = c) by congruence; subst c0.
       live_of LL CV; constructor; simpl; intros; norm_all; fin.
@@ -19,7 +20,8 @@ Proof.
     + other_step LF LL s; [congruence|]. assert (c0 = c) by congruence; subst c0.
       live_of LL CV; constructor; simpl; intros; norm_all; fin.
     + other_step LF LL s; [|congruence]. fresh_contra LF E.
-  - (* PMsg *) destruct (lookup s cs) as [c|] eqn:CV; [destruct (c_phase c) eqn:P|]; inversion H; subst; clear H.
+  - (* PMsg *) destruct (lookup s cs) as [c|] eqn:CV;
+      [pose proof (a_routed _ A _ _ CV) as UR; destruct (c_phase c) eqn:P; rewrite ?UR in H|]; inversion H; subst; clear H.
     + exfalso. pose proof (a_ackfirst _ A _ _ CV P) as AF. unfold s2c in AF. simpl in AF.
       rewrite Nat.eqb_refl in AF. exact AF.
     + other_step LF LL s; [congruence|]. assert (c0 = c) by congruence; subst c0.
@@ -33,6 +35,10 @@ Proof.
     + client_step LF LL s. apply Live_dead. simpl. intros [?|?]; discriminate.
     + no_step LF LL.
   - (* PUnary *) inversion H; subst; clear H. no_step LF LL.
+  - (* PErr *) destruct (lookup s cs) as [c|] eqn:CV;
+      [pose proof (a_routed _ A _ _ CV) as UR; destruct (c_phase c) eqn:P; rewrite ?UR in H|]; inversion H; subst; clear H;
+      try solve [no_step LF LL].
+    client_step LF LL s. live_of LL CV; constructor; simpl; intros; norm_all; fin.
 Qed.
 
 Lemma LInv_step_CDeliver x x' :
